@@ -12,7 +12,7 @@
    expandBlocks, prepareAttributes, JustAttributes; expand_spec.go: decodeSpec
    and newBlock for specs whose for_each and labels are constant lists). *)
 From HclV Require Import Base.Prelude Body.Laws Body.Native Body.Json Body.Merged.
-From Coq Require Import String.
+From Coq Require Import String Ascii.
 Open Scope list_scope.
 Open Scope Z_scope.
 
@@ -114,9 +114,10 @@ Definition econtent (s : schema) (e : ebody) : content jvalue * list diag :=
   let '(bs, bd) := expand_blocks s e false (cblocks raw) in
   ({| cattrs := prepare_attrs e (cattrs raw); cblocks := bs |}, d ++ bd).
 
-(* func (b *expandBody) JustAttributes: straight through to the original,
-   hiddenAttrs are NOT consulted *)
-Definition ejust_attrs (e : ebody) : list (attr jvalue) * list diag := b_just_attrs I (eorig e).
+(* func (b *expandBody) JustAttributes: the original's, minus the attributes
+   recorded in hiddenAttrs (expand_body.go:263-279) *)
+Definition ejust_attrs (e : ebody) : list (attr jvalue) * list diag :=
+  let '(l, d) := b_just_attrs I (eorig e) in (prepare_attrs e l, d).
 
 (* the abstraction fields are not used by the checker and no law is claimed *)
 Definition expand_impl : BodyImpl jvalue ebody :=
@@ -158,6 +159,32 @@ Definition XMrg (l : list (mchild B1)) : Btop :=
 Definition Sch (attrs : list (string * bool)) (blocks : list (string * Z)) : schema :=
   {| sattrs := attrs; sblocks := blocks |}.
 
+(* ---- child bodies (one level of descent) ---------------------------------------
+   The body of a JSON block is its JSON value. The body of a NATIVE block is
+   carried in the case files as an encoding: JObj (("#native", JNull) ::
+   ("#labels", JArr [JStr l; ...]) :: members) where a member whose value is an
+   object is a nested block (encoded the same way) and any other member is an
+   attribute. *)
+Definition is_hash (n : string) : bool :=
+  match n with String c _ => Nat.eqb (Ascii.nat_of_ascii c) 35 | EmptyString => false end.
+Definition labels_of (ms : list (name * jvalue)) : list name :=
+  match jfind "#labels"%string ms with Some (_, JArr ls) => jstrs ls | _ => [] end.
+Definition decode_native (ms : list (name * jvalue)) : nbody jvalue :=
+  {| nattrs := flat_map (fun m => match snd m with
+                                  | JObj _ => []
+                                  | _ => if is_hash (fst m) then [] else [At (fst m) 0]
+                                  end) ms;
+     nblocks := flat_map (fun m => match snd m with
+                                   | JObj ms' => [Bk (fst m) (labels_of ms') (snd m)]
+                                   | _ => []
+                                   end) ms;
+     nhA := []; nhB := [] |}.
+Definition decode_child (v : jvalue) : B0 :=
+  match v with
+  | JObj ms => if is_some (jfind native_marker ms) then inl (decode_native ms) else Js v
+  | _ => Js v
+  end.
+
 (* ---- observations ------------------------------------------------------------ *)
 Record obs := {
   o_attrs : list string;                     (* names of content.Attributes *)
@@ -195,38 +222,70 @@ Definition ja_ok (r : list (attr jvalue) * list diag) (o : list string * list di
 
 Definition ja_obs := (list string * list diag)%type.
 
+(* Content(child schema) on the Body of a returned block; the flag says whether
+   the Go body is a dynblock expandBody *)
+Definition child_obs := (bool * obs)%type.
+
+Definition child_ok (cs : schema) (bl : block jvalue) (o : child_obs) : bool :=
+  let b0 := decode_child (bbody bl) in
+  let b1 : B1 := if fst o then Xp b0 else Pl b0 in
+  let '(c, d) := b_content I1 cs b1 in obs_ok c d (snd o).
+
+Definition children_ok (cs : schema) (bls : list (block jvalue)) (os : list child_obs) : bool :=
+  Nat.eqb (List.length bls) (List.length os)
+  && forallb (fun p => child_ok cs (fst p) (snd p)) (combine bls os).
+
 Record case := {
   c_body : Btop;
-  c_ja0 : ja_obs;                               (* JustAttributes of the body itself *)
-  c_steps : list (schema * obs * ja_obs);       (* PartialContent S; JustAttributes of remain *)
-  c_last : schema * obs                         (* Content S on the last remain *)
+  c_child : schema;                                  (* schema applied to every returned block's Body *)
+  c_ja0 : ja_obs;                                    (* JustAttributes of the body itself *)
+  c_steps : list (schema * obs * ja_obs * list child_obs);  (* PartialContent S; JustAttributes of remain; children *)
+  c_last : schema * obs * list child_obs             (* Content S on the last remain; children *)
 }.
 Definition Case := Build_case.
 
-Fixpoint check_steps (b : Btop) (steps : list (schema * obs * ja_obs)) (last : schema * obs) : bool :=
+Fixpoint check_steps (cs : schema) (b : Btop)
+    (steps : list (schema * obs * ja_obs * list child_obs)) (last : schema * obs * list child_obs) : bool :=
   match steps with
-  | [] => let '(c, d) := b_content Itop (fst last) b in obs_ok c d (snd last)
-  | (s, o, ja) :: r =>
+  | [] => let '(s, o, ch) := last in
+          let '(c, d) := b_content Itop s b in
+          obs_ok c d o && children_ok cs (cblocks c) ch
+  | (s, o, ja, ch) :: r =>
       let '(c, rm, d) := b_partial Itop s b in
-      obs_ok c d o && ja_ok (b_just_attrs Itop rm) ja && check_steps rm r last
+      obs_ok c d o && ja_ok (b_just_attrs Itop rm) ja && children_ok cs (cblocks c) ch
+      && check_steps cs rm r last
   end.
 
 Definition check_body_case (c : case) : bool :=
-  ja_ok (b_just_attrs Itop (c_body c)) (c_ja0 c) && check_steps (c_body c) (c_steps c) (c_last c).
+  ja_ok (b_just_attrs Itop (c_body c)) (c_ja0 c)
+  && check_steps (c_child c) (c_body c) (c_steps c) (c_last c).
 
 Definition check_body_cases (cs : list case) : list Z := failing check_body_case cs.
 
 (* what the model says for one case (to print a disagreement) *)
-Fixpoint model_steps (b : Btop) (steps : list schema) (last : schema)
-  : list (list string * list (string * list string) * list diag * ja_obs) :=
+Definition mobs := (list string * list (string * list string) * list diag)%type.
+Definition model_children (cs : schema) (flags : list bool) (bls : list (block jvalue)) : list mobs :=
+  map (fun p : block jvalue * bool =>
+         let b0 := decode_child (bbody (fst p)) in
+         let b1 : B1 := if snd p then Xp b0 else Pl b0 in
+         let cd := b_content I1 cs b1 in
+         ((map aname (cattrs (fst cd)), map (fun bl => (btype bl, blabels bl)) (cblocks (fst cd)), snd cd) : mobs))
+      (combine bls flags).
+
+Fixpoint model_steps (cs : schema) (b : Btop) (steps : list (schema * list bool)) (last : schema * list bool)
+  : list (mobs * ja_obs * list mobs) :=
   match steps with
-  | [] => let '(c, d) := b_content Itop last b in
-          [(map aname (cattrs c), map (fun bl => (btype bl, blabels bl)) (cblocks c), d, ([], []))]
-  | s :: r =>
+  | [] => let '(c, d) := b_content Itop (fst last) b in
+          [(map aname (cattrs c), map (fun bl => (btype bl, blabels bl)) (cblocks c), d,
+            (@nil string, @nil diag) : ja_obs, model_children cs (snd last) (cblocks c))]
+  | (s, fl) :: r =>
       let '(c, rm, d) := b_partial Itop s b in
       let '(l, jd) := b_just_attrs Itop rm in
-      (map aname (cattrs c), map (fun bl => (btype bl, blabels bl)) (cblocks c), d, (map aname l, jd))
-      :: model_steps rm r last
+      (map aname (cattrs c), map (fun bl => (btype bl, blabels bl)) (cblocks c), d,
+       (map aname l, jd), model_children cs fl (cblocks c))
+      :: model_steps cs rm r last
   end.
 Definition model_case (c : case) :=
-  model_steps (c_body c) (map (fun x => fst (fst x)) (c_steps c)) (fst (c_last c)).
+  model_steps (c_child c) (c_body c)
+    (map (fun x => (fst (fst (fst x)), map fst (snd x))) (c_steps c))
+    (fst (fst (c_last c)), map fst (snd (c_last c))).
